@@ -25,6 +25,10 @@ pub struct Spec {
     pub lowercase: bool,
     /// put the expiry under test into the first sub-layout instead of the top-level layout
     pub inner: bool,
+    /// false: the signer signed the whole-second UTC form and the text was re-spelled afterwards;
+    /// true: the signer parsed the re-spelled document with the library and signed what it parsed
+    #[serde(default)]
+    pub sign_after_parse: bool,
 }
 
 const YEAR_9999_END_MS: i64 = 253_402_300_799_000;
@@ -74,6 +78,8 @@ fn delta_strategy() -> BoxedStrategy<i64> {
     prop_oneof![
         1 => Just(-y10), 1 => Just(-86_400_000i64), 1 => Just(-3_600_000i64),
         4 => (-3000i64..=-5),
+        3 => (-3i64..=3).prop_map(|s| s * 1000),
+        2 => (-86_400i64..0).prop_map(|s| s * 1000),
         4 => (5i64..=3000),
         1 => Just(3_600_000i64), 1 => Just(86_400_000i64), 1 => Just(y10),
         1 => Just(-1000i64), 1 => Just(-1i64), 1 => Just(0i64), 1 => Just(1i64), 1 => Just(1000i64),
@@ -82,12 +88,26 @@ fn delta_strategy() -> BoxedStrategy<i64> {
     .boxed()
 }
 
-fn replace_expires(text: &str, secs_text: &str, new_text: &str) -> Option<String> {
-    let needle = format!("\"expires\":\"{}\"", secs_text);
-    if text.matches(&needle).count() != 1 {
+/// Replace the value of the (single) top-level `expires` member of a serialised block.
+fn replace_expires(text: &str, new_text: &str) -> Option<String> {
+    let needle = "\"expires\":\"";
+    if text.matches(needle).count() != 1 {
         return None;
     }
-    Some(text.replacen(&needle, &format!("\"expires\":\"{}\"", new_text), 1))
+    let start = text.find(needle)? + needle.len();
+    let end = start + text[start..].find('"')?;
+    Some(format!("{}{}{}", &text[..start], new_text, &text[end..]))
+}
+
+/// The signer parses the re-spelled document with the library and signs what was parsed.
+fn sign_after_parse(text: &str, signers: &[KeySpec]) -> Option<String> {
+    let v: serde_json::Value = serde_json::from_str(text).ok()?;
+    let raw = serde_json::to_vec(&v["signed"]).ok()?;
+    let builder = in_toto::models::MetablockBuilder::from_raw_metadata(&raw).ok()?;
+    let sks: Vec<_> = signers.iter().map(private).collect();
+    let refs: Vec<&in_toto::crypto::PrivateKey> = sks.iter().map(|k| &**k).collect();
+    let block = builder.sign(&refs).ok()?.build();
+    serde_json::to_string(&block).ok()
 }
 
 impl Property for C06 {
@@ -98,8 +118,8 @@ impl Property for C06 {
     fn rule() -> String {
         "Generated: otherwise valid worlds (top-level or with a delegated sub-layout); expiry = T + delta with delta in {-10y,-1d,-1h, \
          -3s..-5ms, -1ms..+1ms, +5ms..+3s, +1h,+1d,+10y, uniform within a day}; T is the wall clock (hook off) or an injected instant anywhere \
-         in 1970..9998; after signing, the document's expires text is re-spelled as the same instant (same whole second as signed, so the \
-         signatures stay valid) in a random UTC offset (-23:59..+23:59, Z, +00:00, -00:00), with 0-9 fractional digits, optionally \
+         in 1970..9998; the document's expires text is re-spelled as the same instant, either after signing (same whole second as signed, so the \
+         signatures stay valid) or before the signer parses and signs it with the library, in a random UTC offset (-23:59..+23:59, Z, +00:00, -00:00), with 0-9 fractional digits, optionally \
          lower-case t/z. Oracle: clock read before (t0) and after (t1) the call; expiry < t0 => result must be Err; expiry in [t0,t1] => \
          straddled, skipped; expiry > t1 => no requirement (rejections counted). Non-trivial: expiry < t0 (or within 3 s after t1) and the \
          control with far-future expiry verifies Ok; distinct by (delta, clock mode, spelling, inner/outer, layout shape)."
@@ -125,10 +145,11 @@ impl Property for C06 {
             any::<u8>(),
             prop_oneof![3 => Just(0u8), 2 => 1u8..10],
             any::<bool>(),
+            any::<bool>(),
         )
-            .prop_map(|(((world, owners), wants_inner), delta_ms, clock_ms, offset_min, zero_offset_style, fraction_digits, lowercase)| {
+            .prop_map(|(((world, owners), wants_inner), delta_ms, clock_ms, offset_min, zero_offset_style, fraction_digits, lowercase, sign_after_parse)| {
                 let inner = wants_inner && world.links.iter().any(|f| matches!(f.body, Body::Sub { .. }));
-                Spec { world, owners, delta_ms, clock_ms, offset_min, zero_offset_style, fraction_digits, lowercase, inner }
+                Spec { world, owners, delta_ms, clock_ms, offset_min, zero_offset_style, fraction_digits, lowercase, inner, sign_after_parse }
             })
             .boxed()
     }
@@ -164,20 +185,35 @@ impl Property for C06 {
         }
         let dir = env.fresh_dir("c06");
         let mut info = write_world(&w, &dir);
-        let secs_text = rfc3339_z(signed_secs);
         if inner {
             let f = &w.links[sub_index.unwrap()];
             let path = dir.join(format!("{}.{}.link", f.step, prefix8(&f.filed_under)));
             let t = std::fs::read_to_string(&path).expect("read sub-layout");
-            match replace_expires(&t, &secs_text, &text) {
-                Some(t2) => std::fs::write(&path, t2).expect("write"),
-                None => panic!("harness: expires member not found once in sub-layout"),
+            let Some(mut t2) = replace_expires(&t, &text) else { panic!("harness: expires member not found once in sub-layout") };
+            if spec.sign_after_parse {
+                match sign_after_parse(&t2, std::slice::from_ref(&f.filed_under)) {
+                    Some(x) => t2 = x,
+                    None => {
+                        o.class("respelled-layout-rejected-by-parser");
+                        let _ = std::fs::remove_dir_all(&dir);
+                        return o;
+                    }
+                }
             }
+            std::fs::write(&path, t2).expect("write");
         } else {
-            match replace_expires(&info.layout_text, &secs_text, &text) {
-                Some(t2) => info.layout_text = t2,
-                None => panic!("harness: expires member not found once in layout"),
+            let Some(mut t2) = replace_expires(&info.layout_text, &text) else { panic!("harness: expires member not found once in layout") };
+            if spec.sign_after_parse {
+                match sign_after_parse(&t2, &spec.owners) {
+                    Some(x) => t2 = x,
+                    None => {
+                        o.class("respelled-layout-rejected-by-parser");
+                        let _ = std::fs::remove_dir_all(&dir);
+                        return o;
+                    }
+                }
             }
+            info.layout_text = t2;
         }
         if serde_json::from_str::<in_toto::models::Metablock>(&info.layout_text).is_err() {
             o.class("respelled-layout-rejected-by-parser");
@@ -193,6 +229,7 @@ impl Property for C06 {
         let Some(r) = r else { return o };
         o.class(if spec.clock_ms.is_some() { "clock:injected" } else { "clock:wall" });
         o.class(if inner { "layout:inner" } else { "layout:top" });
+        o.class(if spec.sign_after_parse { "signed:after-parse" } else { "signed:before-respelling" });
         o.class(match spec.offset_min {
             None => "offset:Z",
             Some(0) => "offset:zero",
@@ -241,7 +278,7 @@ impl Property for C06 {
             let _ = std::fs::remove_dir_all(&cdir);
             o.evals = 2;
             if matches!(cr, Some(Ok(_))) {
-                o.nontrivial(format!("{}|{}|{:?}|{}|{}|{}|{}", spec.delta_ms, spec.clock_ms.is_some(), spec.offset_min, spec.fraction_digits, spec.lowercase, inner, spec.world.layout.steps.len()));
+                o.nontrivial(format!("{}|{}|{:?}|{}|{}|{}|{}|{}", spec.delta_ms, spec.clock_ms.is_some(), spec.offset_min, spec.fraction_digits, spec.lowercase, inner, spec.world.layout.steps.len(), spec.sign_after_parse));
             } else {
                 o.class("control-not-ok");
             }
